@@ -744,6 +744,9 @@ type armed struct {
 	panicked  bool
 	swept     bool
 	dbArmed   bool
+	// what was injected, known after the operation returned
+	commitFailed bool // the commit of the network method failed by injection (error of the method manager or refusal by the network)
+	dbFailed     bool // a statement of the clean-up transaction failed by injection
 	trace     []string
 	pending   []string // verification methods of the versions written by the first transaction
 	sweepsRan int
@@ -868,6 +871,8 @@ func (p *pass) arm(s site) *armed {
 // disarm clears what did not fire and tells whether every part of the site's fault fired.
 func (p *pass) disarm(a *armed) bool {
 	fired := true
+	a.commitFailed = (a.s.CommitErr && !p.e.nuts.failCommit) || (a.s.Refuse && !p.e.net.refuseNext)
+	a.dbFailed = a.s.DBFail && a.dbArmed && !p.e.failDelete
 	if a.s.CommitErr && p.e.nuts.failCommit {
 		fired = false
 	}
@@ -1393,6 +1398,13 @@ func (p *pass) run() {
 		p.count("operations", 1)
 		p.orders[strings.Join(a.trace, " ")] = true
 		class := s.class()
+		if s.DBFail && !a.dbFailed {
+			// the clean-up transaction did not run a statement that could fail: what is left of the site decides the class
+			class = "no-fault"
+			if a.commitFailed {
+				class = "commit-error"
+			}
+		}
 		natural := pl.natural
 		if !fired {
 			// a fault behind the point at which the real method manager refuses on its own is not reachable
@@ -1405,7 +1417,7 @@ func (p *pass) run() {
 			p.count("fault:"+s.Name+"/"+o.Kind, 1)
 		}
 		publishedNow := len(p.e.net.ledger) > ledgerBefore
-		dbFailed := s.DBFail && fired && stopped == nil
+		dbFailed := a.dbFailed && stopped == nil
 		var cleanBefore bool
 		if stopped != nil {
 			// restart: the persistent subscription hands over what was written before the stop
@@ -1462,14 +1474,14 @@ func (p *pass) run() {
 		case err != nil && pl.early:
 			p.count("refusals_inside_first_transaction", 1)
 			class = "refusal"
-		case err != nil && class != "commit-error" && !natural:
+		case err != nil && !a.commitFailed && !natural:
 			p.violation("C13/further-operation-failed/"+o.Kind, "an operation without an injected failure failed: "+err.Error(), o, "first attempt", pre, post, nil)
 			return
 		case err == nil && pl.early:
 			p.r.Unspecified("operation-expected-to-be-refused-was-accepted/" + o.Kind)
 		case err == nil && natural:
 			p.r.Unspecified("second-service-of-a-type-accepted")
-		case err == nil && class == "commit-error" && fired:
+		case err == nil && a.commitFailed:
 			p.violation("C13/commit-error-swallowed/"+o.Kind, "the network method's commit failed but the operation reported success", o, "first attempt", pre, post, nil)
 		}
 		if natural && err != nil && stopped == nil && !dbFailed {
@@ -1737,7 +1749,9 @@ func TestCheck(t *testing.T) {
 		audit.Log(ctx(), logrus.NewEntry(logrus.StandardLogger()), "verif-start")
 		os.Stderr = saved
 	}
-	storage.DefaultBBoltOptions = append(storage.DefaultBBoltOptions, stoabs.WithNoSync())
+	// the node gives up on a bbolt transaction when its lock goroutine is not scheduled within a second: on a loaded machine that is a wall-clock effect
+	// (an unresolvable network document, a rejected delivery), not an event of the property; nothing contends for the lock inside a pass
+	storage.DefaultBBoltOptions = append(storage.DefaultBBoltOptions, stoabs.WithNoSync(), stoabs.WithLockAcquireTimeout(time.Hour))
 	rec := &sched.Recorder{OnHook: hook}
 	defer rec.Install()()
 
@@ -1759,6 +1773,21 @@ func TestCheck(t *testing.T) {
 				list = append(list, job{s, k})
 			}
 		}
+	}
+	if only := os.Getenv("VERIF_C13_ONLY"); only != "" {
+		// debugging aid: "<sequence>:<site name>[:<repetitions>]" runs that one pass (the outcome is then "observed too little", on purpose)
+		parts := strings.Split(only, ":")
+		var kept []job
+		for _, j := range list {
+			if fmt.Sprint(j.seq) == parts[0] && strings.Join(parts[1:len(parts)-1], ":") == sites[j.site].Name {
+				n := 1
+				fmt.Sscan(parts[len(parts)-1], &n)
+				for ; n > 0; n-- {
+					kept = append(kept, j)
+				}
+			}
+		}
+		list = kept
 	}
 	jobs := make(chan int)
 	results := make([]*pass, len(list))
